@@ -1257,9 +1257,111 @@ def _inline_pure_helpers(tree):
     return count[0]
 
 
+def _iterate_until(tree):
+    """next(E for T in G(args) if P) where G is `while True: yield <state>; <update state>` (an endless iteration of an
+    update over G's own parameters)  ->  state = args; while not P: update; then E — the first state that satisfies P.
+    Applied to `x = next(..)` and `return next(..)` statements of module-level functions; when the arguments are the
+    caller's variables of the same names as G's parameters, no copies are made."""
+    gens = {}
+    for st in tree.body:
+        if not (isinstance(st, ast.FunctionDef) and not st.decorator_list):
+            continue
+        a = st.args
+        if a.vararg or a.kwarg or a.kwonlyargs or a.posonlyargs or a.defaults:
+            continue
+        body = [x for x in st.body if not (isinstance(x, ast.Expr) and isinstance(x.value, ast.Constant))]
+        if len(body) != 1 or not isinstance(body[0], ast.While) or body[0].orelse or not (isinstance(body[0].test, ast.Constant) and body[0].test.value is True):
+            continue
+        wb = body[0].body
+        if not wb or not (isinstance(wb[0], ast.Expr) and isinstance(wb[0].value, ast.Yield) and wb[0].value.value is not None and _simple(wb[0].value.value)):
+            continue
+        params = [p.arg for p in a.args]
+        ok = True
+        for u in wb[1:]:
+            if not isinstance(u, (ast.Assign, ast.AugAssign)) or any(isinstance(n, (ast.Yield, ast.YieldFrom, ast.Call, ast.Lambda)) for n in ast.walk(u)):
+                ok = False
+            else:
+                for n in ast.walk(u):
+                    if isinstance(n, ast.Name) and isinstance(n.ctx, ast.Store) and n.id not in params:
+                        ok = False
+        if ok:
+            gens[st.name] = (params, wb[0].value.value, wb[1:])
+    if not gens:
+        return 0
+    count = [0]
+
+    def rewrite(fn, st, call_next, make_tail):
+        if not (isinstance(call_next, ast.Call) and isinstance(call_next.func, ast.Name) and call_next.func.id == "next" and len(call_next.args) == 1 and not call_next.keywords and isinstance(call_next.args[0], ast.GeneratorExp)):
+            return None
+        g = call_next.args[0]
+        if len(g.generators) != 1 or g.generators[0].is_async:
+            return None
+        comp = g.generators[0]
+        it = comp.iter
+        if not (isinstance(it, ast.Call) and isinstance(it.func, ast.Name) and it.func.id in gens and not it.keywords and not any(isinstance(x, ast.Starred) for x in it.args)):
+            return None
+        params, val, updates = gens[it.func.id]
+        if len(it.args) != len(params) or not all(_simple(x) for x in it.args):
+            return None
+        same = all(isinstance(x, ast.Name) and x.id == p_ for x, p_ in zip(it.args, params))
+        pre = []
+        ren = {}
+        if not same:
+            count[0] += 1
+            ren = {p_: ast.Name(id="%s_it%d" % (p_, count[0]), ctx=ast.Load()) for p_ in params}
+            for p_, x in zip(params, it.args):
+                pre.append(ast.copy_location(ast.Assign(targets=[ast.Name(id=ren[p_].id, ctx=ast.Store())], value=copy.deepcopy(x), type_comment=None), st))
+
+        class _R(ast.NodeTransformer):
+            def visit_Name(self_, n):
+                if n.id in ren:
+                    return ast.copy_location(ast.Name(id=ren[n.id].id, ctx=n.ctx), n)
+                return n
+
+        val2 = _R().visit(copy.deepcopy(val))
+        m = {}
+        if not Unroller.bind(comp.target, val2, m):
+            return None
+        conds = [_Subst(m).visit(copy.deepcopy(c)) for c in comp.ifs]
+        if not conds:
+            return None
+        pred = conds[0] if len(conds) == 1 else ast.BoolOp(op=ast.And(), values=conds)
+        # while not P: a double negation is dropped
+        test = pred.operand if isinstance(pred, ast.UnaryOp) and isinstance(pred.op, ast.Not) else ast.UnaryOp(op=ast.Not(), operand=pred)
+        loop = ast.copy_location(ast.While(test=test, body=[_R().visit(copy.deepcopy(u)) for u in updates] or [ast.Pass()], orelse=[]), st)
+        result = _Subst(m).visit(copy.deepcopy(g.elt))
+        tail = make_tail(result)
+        count[0] += 1
+        return [ast.fix_missing_locations(x) for x in pre + [loop] + tail]
+
+    for fn in [x for x in ast.walk(tree) if isinstance(x, ast.FunctionDef)]:
+        new_body = []
+        changed = False
+        for st in fn.body:
+            out = None
+            if isinstance(st, ast.Return) and st.value is not None:
+                out = rewrite(fn, st, st.value, lambda r, st=st: [ast.copy_location(ast.Return(value=r), st)])
+            elif isinstance(st, ast.Assign) and len(st.targets) == 1:
+                def tail(r, st=st):
+                    if ast.unparse(r) == ast.unparse(st.targets[0]) or (isinstance(r, ast.Tuple) and isinstance(st.targets[0], ast.Tuple) and [ast.unparse(x) for x in r.elts] == [ast.unparse(x) for x in st.targets[0].elts]):
+                        return []  # the state is already held by the variables it is assigned to
+                    return [ast.copy_location(ast.Assign(targets=st.targets, value=r, type_comment=None), st)]
+
+                out = rewrite(fn, st, st.value, tail)
+            if out is None:
+                new_body.append(st)
+            else:
+                new_body += out
+                changed = True
+        if changed:
+            fn.body = new_body
+    return count[0]
+
+
 def normalise(tree):
     """unroll table-driven loops and fold constant getattr / setattr; returns (tree, number of loops unrolled)"""
     _collect_records(tree)
+    _iterate_until(tree)
     _inline_pure_helpers(tree)
     _delegations(tree)
     tree = _MapExtend(tree).visit(tree)
